@@ -258,7 +258,7 @@ def check_random_victim(run, ctx):
                 run.bad('C04-K2', body.name + '/random-victim', 'the random victim in %s is not a position of the order queue it is removed from (range over queue length: %s, '
                         'used as removal index: %s, same queue: %s)' % (body.name, okr, used, same_q), site='%s (%s)' % (body.name, body.loc(b)),
                         oracle='pos = fastrand::usize(..order.len()); order.remove(pos)')
-    run.require('C04-K2', 'random victim draws', n, 6)
+    run.require('C04-K2', 'random victim draws', n, 1)
     return n
 
 
@@ -281,6 +281,19 @@ def check_queue_dedupe(run, ctx):
     mk = ctx.core_fn('cachelito_core::utils::move_key_to_end')
     if mk is not None:
         fns.append(('sync', mk))
+    nroots = len(fns)
+    # helpers the roots call directly (an extracted `requeue` helper is judged like inline code)
+    from .effects import OPERATIONS
+    seen = {f.id for _, f in fns}
+    todo = list(fns)
+    while todo:
+        flav, f = todo.pop()
+        for x in C.scope(f):
+            for (blk, cb, how) in ctx.prog.call_edges(x):
+                if how == 'direct' and cb.crate is ctx.core and cb.id not in seen and cb.name not in OPERATIONS:
+                    seen.add(cb.id)
+                    fns.append((flav, cb))
+                    todo.append((flav, cb))
     for flav, fn in fns:
         for body in C.scope(fn):
             pushes = [(b, t) for (b, k, t) in eff.prim(body) if k in ('Q>', 'Q<')]
@@ -308,7 +321,8 @@ def check_queue_dedupe(run, ctx):
                     run.bad('C04-P3', key + '/duplicate-queue-key', '%s appends the key to the order queue without first removing an older occurrence: a re-stored or touched key '
                             'is then queued twice and the queue length no longer bounds the store' % body.name, site='%s (%s)' % (body.name, body.loc(pb)),
                             oracle='every push of key k is preceded by the removal of k from the queue')
-    run.require('C04-P3', 'queue pushes', n, 8)
+    run.require('C04-P3', 'store / touch entry points', nroots, 9)
+    run.require('C04-P3', 'queue pushes', n, 1)
     return n
 
 
@@ -485,6 +499,12 @@ def check_registry_tables(run, ctx):
             run.bad('C12-S1', 'register/member', 'register must add the cache name to each of the three sets (found %d insertions, all with the cache name: %s)' % (len(ins), names_ok), site=reg.name)
         else:
             run.ok('C12-S1', 'register/member', 'cache name inserted into the three sets')
+    # the routine that runs a set of clear callbacks: found by its dyn call inside a loop, not by name
+    ic_body = None
+    for f in ctx.core.bodies.values():
+        if f.name.startswith(REG) and f.kind == 'assoc_fn' and f.name != REG + 'invalidate_cache':
+            if any(ctx.prog.dyn_call_kind(f, t) == 'clear' for b, t in f.calls()) and any(callee_name(t).endswith('Iterator::next') for b, t in f.calls()):
+                ic_body = f
     for k, fld in TABLES.items():
         fn = {'tags': 'invalidate_by_tag', 'events': 'invalidate_by_event', 'dependencies': 'invalidate_by_dependency'}[k]
         body = ctx.core_fn(REG + fn)
@@ -494,7 +514,7 @@ def check_registry_tables(run, ctx):
             continue
         ex = Expr(body)
         gets = [(b, t) for b, t in body.calls() if callee_name(t) == N.HM + 'get']
-        calls = [(b, t) for b, t in body.calls() if callee_name(t) == REG + 'invalidate_caches']
+        calls = [(b, t) for b, t in body.calls() if any(cb.id == (ic_body.id if ic_body else None) for cb in ctx.prog.lookup(t))]
         okk = False
         got = None
         if len(gets) == 1 and len(calls) == 1:
@@ -504,7 +524,7 @@ def check_registry_tables(run, ctx):
             from_lookup = any(c[1] == N.HM + 'get' for c in calls_in(passed))
             okk = got == fld and keyarg == ('param', 2) and from_lookup
             ret = [ex._def(d, 0) for d in body.defs.get(0, [])]
-            okk = okk and all(r[0] == 'call' and r[1] == REG + 'invalidate_caches' for r in ret)
+            okk = okk and all(r[0] == 'call' and r[3] == calls[0][0] for r in ret)
         if okk:
             run.ok('C12-S1', fn, 'reads %s, invalidates the looked-up set, returns its count' % fld)
         else:
@@ -524,10 +544,10 @@ def check_registry_tables(run, ctx):
     else:
         run.bad('C12-S1', 'InvalidationMetadata::new/fail-closed', 'fail-closed: InvalidationMetadata::new not found')
     # S2
-    ic = ctx.core_fn(REG + 'invalidate_caches')
+    ic = ic_body
     n += 1
     if ic is None:
-        run.bad('C12-S2', 'invalidate_caches/fail-closed', 'fail-closed: invalidate_caches not found')
+        run.bad('C12-S2', 'invalidate_caches/fail-closed', 'fail-closed: no registry routine runs a set of clear callbacks in a loop')
     else:
         ex = Expr(ic)
         dyn = [(b, t) for b, t in ic.calls() if ctx.prog.dyn_call_kind(ic, t) == 'clear']
@@ -789,8 +809,7 @@ def check_victim_key_identity(run, ctx, rule='C04-P5'):
     n = 0
     roots = []
     for flav, adt in K.FLAVOURS:
-        for m in ('handle_entry_limit_eviction', 'insert_with_memory'):
-            f = C.method(adt, m)
+        for f in (C.eviction_fn(adt), C.method(adt, 'insert_with_memory')):
             if f is not None:
                 roots.append((flav, f))
     for flav, fn in roots:
@@ -839,16 +858,23 @@ def check_victim_key_identity(run, ctx, rule='C04-P5'):
                     run.bad(rule, label + '/victim-key-mismatch', 'the key removed from the store in %s (%s) is not the key that is removed from the order queue: one entry is evicted '
                             'while another key loses its queue slot' % (body.name, show(key)), site='%s (%s)' % (body.name, body.loc(b)),
                             oracle='victim removed from store and queue under the same key')
-    # the shared helper and the pass-through wrappers
-    rm = ctx.core_fn('cachelito_core::utils::remove_from_maps')
-    n += 1
-    if rm is None:
-        run.bad(rule, 'remove_from_maps/fail-closed', 'fail-closed: utils::remove_from_maps not found')
-    else:
+    # shared helpers: every core function outside the cache types that removes from a store map and from a queue must do
+    # both under its own key parameter; functions that merely forward to such a helper must forward the key unchanged
+    helpers = []
+    for f in ctx.core.bodies.values():
+        if f.kind != 'fn':
+            continue
+        kinds = {classify(t) for b, t in f.calls()}
+        if 'S-' in kinds and (kinds & {'Q-at', 'Q-key'}):
+            helpers.append(f)
+    for rm in helpers:
+        n += 1
         ex = Expr(rm)
-        sm = [(b, t) for b, t in rm.calls() if callee_name(t) == N.HM + 'remove']
+        sm = [(b, t) for b, t in rm.calls() if classify(t) == 'S-']
         qa = [(b, t) for b, t in rm.calls() if classify(t) in ('Q-at', 'Q-key')]
-        okk = len(sm) == 1 and len(qa) == 1 and ex.operand(sm[0][1]['args'][1]) == ('param', 3)
+        okk = len(sm) == 1 and len(qa) == 1
+        kp = ex.operand(sm[0][1]['args'][1]) if okk else None
+        okk = okk and kp[0] == 'param'
         if okk:
             t2 = qa[0][1]
             if classify(t2) == 'Q-at':
@@ -860,25 +886,26 @@ def check_victim_key_identity(run, ctx, rule='C04-P5'):
             for cid in cl:
                 cb = prog.bodies.get(cid)
                 par, ops = prog.closure_capture_operands(cb) if cb else (None, None)
-                if ops and any(ex.operand(o) == ('param', 3) for o in ops):
+                if ops and any(ex.operand(o) == kp for o in ops):
                     okk = True
+        short = rm.name.rsplit('::', 1)[-1]
         if okk:
-            run.ok(rule, 'remove_from_maps', 'map.remove(key) and the queue removal of the same parameter key')
+            run.ok(rule, 'helper/' + short, 'removes its key parameter from the map and from the queue')
+            for f in ctx.core.bodies.values():
+                if f.kind != 'fn' or f.id == rm.id:
+                    continue
+                cs = [(b, t) for b, t in f.calls() if any(cb.id == rm.id for cb in prog.lookup(t))]
+                if len(cs) == 1:
+                    n += 1
+                    fe = Expr(f)
+                    passed = fe.operand(cs[0][1]['args'][kp[1] - 1])
+                    if passed[0] == 'param':
+                        run.ok(rule, 'helper/' + f.name.rsplit('::', 1)[-1], 'forwards its key parameter unchanged to %s' % short)
+                    else:
+                        run.bad(rule, 'helper/%s/key-not-passed' % f.name.rsplit('::', 1)[-1], '%s does not pass a key parameter unchanged to %s' % (f.name, short), site=f.name)
         else:
-            run.bad(rule, 'remove_from_maps/key-mismatch', 'remove_from_maps must remove its key parameter from the map and from the queue', site=rm.name)
-    for nm, keyparam, callee_sfx in (('cachelito_core::utils::remove_key_from_global_cache', 3, 'remove_from_maps'), ('cachelito_core::utils::remove_key_from_cache_local', 3, 'remove_from_maps')):
-        f = ctx.core_fn(nm)
-        n += 1
-        if f is None:
-            run.bad(rule, nm.rsplit('::', 1)[-1] + '/fail-closed', 'fail-closed: %s not found' % nm)
-            continue
-        ex = Expr(f)
-        cs = [(b, t) for b, t in f.calls() if callee_name(t).endswith('::' + callee_sfx)]
-        if len(cs) == 1 and ex.operand(cs[0][1]['args'][2]) == ('param', keyparam):
-            run.ok(rule, nm.rsplit('::', 1)[-1], 'passes its key unchanged to %s' % callee_sfx)
-        else:
-            run.bad(rule, nm.rsplit('::', 1)[-1] + '/key-not-passed', '%s does not pass its key parameter unchanged to %s' % (nm, callee_sfx), site=f.name)
-    run.require(rule, 'victim removals judged', n, 12)
+            run.bad(rule, 'helper/%s/key-mismatch' % short, '%s must remove one and the same key parameter from the map and from the queue' % rm.name, site=rm.name)
+    run.require(rule, 'victim removals judged', n, 6)
     return n
 
 
